@@ -28,6 +28,7 @@ func init() {
 		},
 		Controls: []Control{
 			{Name: "drop the sort", File: "kernel/hal/hal.go", Old: "\tsort.Sort(drivers)\n", New: "\t_ = sort.Sort\n", Expect: "C16.R1"},
+			{Name: "initialized line written after onDriverInit (seed C16-13)", File: "kernel/hal/hal.go", Old: "\t\tkfmt.Fprintf(&w, \"initialized\\n\")\n\t\tonDriverInit(info, drv)\n", New: "\t\tonDriverInit(info, drv)\n\t\tkfmt.Fprintf(&w, \"initialized\\n\")\n", Expect: "C16.R2 log-before-link"},
 			{Name: "Less compares in the wrong direction", File: "kernel/device/driver.go", Old: "return l[i].Order < l[j].Order", New: "return l[i].Order > l[j].Order", Expect: "C16.R1"},
 			{Name: "activate before the error test", File: "kernel/hal/hal.go",
 				Old: "\t\tif err := drv.DriverInit(&w); err != nil {\n\t\t\tkfmt.Fprintf(&w, \"init failed: %s\\n\", err.Message)\n\t\t\tcontinue\n\t\t}\n",
@@ -309,6 +310,50 @@ func runC16(c *Ctx) {
 		}
 		if nact == 0 {
 			c.fail("C16.R2", "activation "+m.fnName(probe), "no onDriverInit call / activeDrivers append found", m.pos(probe.Pos()))
+		}
+		// the per-driver log writer snapshots the output sink before DriverInit;
+		// onDriverInit may link console and terminal, which drains the early ring
+		// buffer and switches the sink: a line written through the snapshot after
+		// that lands in the ring buffer, which is never drained again
+		if sinkF := m.fieldOf("kfmt", "PrefixWriter", "Sink"); sinkF != nil {
+			viaSnapshot := func(n int) bool {
+				if !m.callsTo(gp.Ins[n], fprintf) {
+					return false
+				}
+				args := gp.callArgs(n)
+				if len(args) == 0 {
+					return false
+				}
+				v := strip(args[0])
+				if mi, ok := v.(*ssa.MakeInterface); ok {
+					v = strip(mi.X)
+				}
+				pt, ok := v.Type().Underlying().(*types.Pointer)
+				if !ok {
+					return false
+				}
+				named, ok := pt.Elem().(*types.Named)
+				return ok && named.Obj() == sinkFOwner(m)
+			}
+			refresh := func(n int) bool {
+				if st, ok := gp.Ins[n].(*ssa.Store); ok {
+					if f, rest := lastField(accessPath(st.Addr)); f == sinkF && rest == "" {
+						return true
+					}
+				}
+				return false
+			}
+			for n, in := range gp.Ins {
+				if !m.callsTo(in, onDrv) {
+					continue
+				}
+				k := "log-before-link " + m.fnName(probe)
+				if p := gp.Path(gp.Succ[n], nil, refresh, viaSnapshot); p != nil {
+					c.fail("C16.R2", k, "a line is written through the per-driver writer after onDriverInit without its Sink having been fetched again: when this driver completes the console/terminal pair the sink has been switched and the line stays in the early ring buffer (lost)", gp.where(p, 8)...)
+				} else {
+					c.ok("C16.R2", k, "no write through the sink snapshot is reachable from onDriverInit before the snapshot is renewed", gp.posOf(n))
+				}
+			}
 		}
 		// failure side: log and continue
 		for _, f := range gp.AllEdgeFacts() {
@@ -769,4 +814,12 @@ func containsFn(l []*ssa.Function, f *ssa.Function) bool {
 		}
 	}
 	return false
+}
+
+// sinkFOwner is the type name object of kfmt.PrefixWriter.
+func sinkFOwner(m *Module) *types.TypeName {
+	if t := m.lookupType("kfmt", "PrefixWriter"); t != nil {
+		return t.Obj()
+	}
+	return nil
 }
